@@ -613,9 +613,11 @@ def check_case(col, inp, L, R, lp, rp, inidir, status_check="fast"):
                         # ones: what "matching by key" means here is not defined by the documentation
                         col.out_of_scope("key-sync-identity-field-%s" % "+".join(sorted(idkey_issues & {"uninferable", "ambiguous"})))
                         continue
-                    if "duplicate" in idkey_issues and "bool-int" not in idkey_issues:
+                    if "bool-int" in idkey_issues:
+                        name = "bool-int-conflated"           # identity values that differ only as true / 1
+                    elif "duplicate" in idkey_issues:
                         name = "key-sync-identity-value-duplicated"
-                if name != "key-sync-identity-value-duplicated" and (
+                if name not in ("key-sync-identity-value-duplicated", "bool-int-conflated") and (
                         not spec.data_equal(lp, rp, arrays, laoh, aoh_key, whole_unit="plain") or _nested_reorder(lp, rp, arrays, laoh)):
                     name = "reordered-sequence-nested-in-synchronised-element"
             if name is None and aoh in ("key", "deep") and group in ("iff",):
